@@ -6,6 +6,7 @@ import (
 	"fmt"
 	"sort"
 	"strings"
+	"sync"
 	"time"
 
 	"github.com/NethermindEth/juno/blockchain"
@@ -24,17 +25,78 @@ type chain struct {
 	verIdx   int
 	keys     []stateKey
 	keyset   map[string]bool
+
+	// answers of the unpruned twin never change once the chain is generated: cache them
+	cacheMu   sync.Mutex
+	twinState map[string]twinStateRes
+	twinQ     map[string]twinQRes
+}
+
+type cellRes struct {
+	v felt.Felt
+	e string
+}
+
+type twinStateRes struct {
+	err   string // "" = reader handed out
+	cells []cellRes
+}
+
+type twinQRes struct {
+	v   any
+	err error
+}
+
+// twinStateAt reads (once) every cell of c.keys through the twin's state reader opened by `open`.
+func (c *chain) twinStateAt(id string, open func(bc *blockchain.Blockchain) (core.StateReader, blockchain.StateCloser, error)) twinStateRes {
+	c.cacheMu.Lock()
+	if r, ok := c.twinState[id]; ok {
+		c.cacheMu.Unlock()
+		return r
+	}
+	c.cacheMu.Unlock()
+	var res twinStateRes
+	tr, tclose, terr := open(c.g.Src)
+	if terr != nil {
+		res.err = errClass(terr)
+	} else {
+		for _, k := range c.keys {
+			v, e := readCell(tr, k)
+			res.cells = append(res.cells, cellRes{v, e})
+		}
+		_ = tclose()
+	}
+	c.cacheMu.Lock()
+	c.twinState[id] = res
+	c.cacheMu.Unlock()
+	return res
+}
+
+func (c *chain) twinQuery(id string, call qcall) twinQRes {
+	c.cacheMu.Lock()
+	if r, ok := c.twinQ[id]; ok {
+		c.cacheMu.Unlock()
+		return r
+	}
+	c.cacheMu.Unlock()
+	v, err := call.Do()
+	r := twinQRes{v, err}
+	c.cacheMu.Lock()
+	c.twinQ[id] = r
+	c.cacheMu.Unlock()
+	return r
 }
 
 func newChain(r *lib.RNG, newState bool, opt lib.GenOptions) *chain {
-	c := &chain{g: lib.NewChainGen(r, newState, opt), newState: newState, keyset: map[string]bool{}}
+	c := &chain{g: lib.NewChainGen(r, newState, opt), newState: newState, keyset: map[string]bool{},
+		twinState: map[string]twinStateRes{}, twinQ: map[string]twinQRes{}}
 	c.addKey(stateKey{Kind: "storage", Addr: markerAddr, Slot: markerSlot})
 	return c
 }
 
 func (c *chain) addKey(k stateKey) {
 	id := k.Kind + k.Addr.String() + k.Slot.String()
-	if c.keyset[id] || len(c.keys) >= 28 {
+	if c.keyset[id] || len(c.keys) >= 10 {
 		return
 	}
 	c.keyset[id] = true
@@ -125,6 +187,7 @@ type world struct {
 	situation string // steady | mid-prune | after-cancel | after-failed-write | after-crash-mid-prune | after-restart
 	quiescent bool
 	isFork    bool
+	lastLow   uint64 // lowest durable floor seen at the previous observation (observation window)
 	broken    bool // the scenario left the property's domain or the harness lost sync: stop comparing
 }
 
@@ -613,7 +676,25 @@ func (w *world) observe() {
 	twinDB := w.ch.g.SrcDB
 	var items []obsItem
 	hi := w.height + 1
+	// Observation window: every block for short chains; for longer ones the blocks around every floor that
+	// moved or may move (previous / current durable floor, allowed floor), plus genesis, head and head+1.
+	oldestNow, oerr := pruner.OldestRetainedBlock(w.nodeDB)
+	if oerr != nil {
+		oldestNow = 0
+	}
+	lowMark := min(w.lastLow, oldestNow, w.fspec)
+	highMark := max(oldestNow, w.fspec)
+	w.lastLow = oldestNow
+	inWindow := func(n int) bool {
+		if w.height < 18 || n == 0 || n >= w.height-1 {
+			return true
+		}
+		return uint64(n)+3 >= lowMark && uint64(n) <= highMark+2
+	}
 	for n := 0; n <= hi; n++ {
+		if !inWindow(n) {
+			continue
+		}
 		var b *lib.Bundle
 		if n <= w.height {
 			b = w.ch.g.Bundles[n]
@@ -625,27 +706,40 @@ func (w *world) observe() {
 			twinCalls := rq.Run(twin, twinDB, c)
 			for i := range nodeCalls {
 				nc, tc := nodeCalls[i], twinCalls[i]
-				class, det := runPair(nc, tc)
+				class, det := runPair(nc, w.ch.twinQuery(fmt.Sprintf("%s/%d/%v/%s", rq.Name, n, c.OnChain, tc.Arg), tc))
 				items = append(items, obsItem{model: rq.Model, real: rq.Name, n: uint64(n), arg: nc.Arg, class: class, det: det})
 			}
 		}
 		nn := uint64(n)
-		class, mark, det := stateObs(func(bc *blockchain.Blockchain) (core.StateReader, blockchain.StateCloser, error) {
+		byNum := func(bc *blockchain.Blockchain) (core.StateReader, blockchain.StateCloser, error) {
 			return bc.StateAtBlockNumber(nn)
-		}, w.node, twin, w.ch.keys)
+		}
+		class, mark, det := stateObs(byNum, w.node, w.ch.twinStateAt(fmt.Sprintf("num/%d/%v", n, c.OnChain), byNum), w.ch.keys)
 		items = append(items, obsItem{model: "stateAtNumber", real: "StateAtBlockNumber", n: nn, class: class, det: det, mark: mark})
-		class, mark, det = stateObs(func(bc *blockchain.Blockchain) (core.StateReader, blockchain.StateCloser, error) {
+		byHash := func(bc *blockchain.Blockchain) (core.StateReader, blockchain.StateCloser, error) {
 			return bc.StateAtBlockHash(c.Hash)
-		}, w.node, twin, w.ch.keys)
+		}
+		class, mark, det = stateObs(byHash, w.node, w.ch.twinStateAt(fmt.Sprintf("hash/%d/%v", n, c.OnChain), byHash), w.ch.keys)
 		items = append(items, obsItem{model: "stateAtHash", real: "StateAtBlockHash", n: nn, class: class, det: det, mark: mark})
 	}
 	// head state: the pruner never touches it. Compared with the shadow: a never-pruned node that went
 	// through the same Store / RevertHead history (so a defect of RevertHead itself is not blamed on pruning).
 	headClass, headDet := "notfound", ""
 	if w.height >= 0 {
-		headClass, _, headDet = stateObs(func(bc *blockchain.Blockchain) (core.StateReader, blockchain.StateCloser, error) {
+		headOf := func(bc *blockchain.Blockchain) (core.StateReader, blockchain.StateCloser, error) {
 			return bc.HeadState()
-		}, w.node, w.shadow, w.ch.keys)
+		}
+		var sh twinStateRes
+		if sr, scl, serr := headOf(w.shadow); serr != nil {
+			sh.err = errClass(serr)
+		} else {
+			for _, k := range w.ch.keys {
+				v, e := readCell(sr, k)
+				sh.cells = append(sh.cells, cellRes{v, e})
+			}
+			_ = scl()
+		}
+		headClass, _, headDet = stateObs(headOf, w.node, sh, w.ch.keys)
 	}
 
 	// --- model correspondence
